@@ -858,16 +858,20 @@ class Runner(object):
         rc, so, se = cbuild.run_compiler(self.compiler, gir, out, includedirs=[self.dir])
         return rc, (so + se)[-600:], os.path.exists(out)
 
-    def dump(self, namespaces):
+    def dump(self, namespaces, chunk=100):
         res = {}
-        for i in range(0, len(namespaces), 100):
-            p = subprocess.run([self.dumper, self.dir] + namespaces[i:i + 100], stdout=subprocess.PIPE,
+        for i in range(0, len(namespaces), chunk):
+            part = namespaces[i:i + chunk]
+            p = subprocess.run([self.dumper, self.dir] + part, stdout=subprocess.PIPE,
                                stderr=subprocess.PIPE, timeout=600,
                                env=dict(os.environ, ASAN_OPTIONS='detect_leaks=0'))
             if p.returncode != 0:
-                # the real library crashed while reading typelibs it wrote itself
-                for ns in namespaces[i:i + 100]:
-                    res.setdefault(ns, {'error': 'c08_layout exited %d: %s' % (p.returncode, p.stderr.decode('utf-8', 'replace')[-300:])})
+                # the real library crashed while reading typelibs it wrote itself: find out on which
+                if len(part) > 1:
+                    res.update(self.dump(part, 1))
+                else:
+                    res.setdefault(part[0], {'error': 'c08_layout exited %d: %s' % (
+                        p.returncode, p.stderr.decode('utf-8', 'replace')[-300:])})
                 continue
             res.update(parse_dump(p.stdout.decode('utf-8', 'replace')))
         return res
